@@ -458,9 +458,10 @@ fn fam_panics(tag: &str, out: &mut Vec<Case>) {
         let a = make_member(&mut rng, 8, 2, 4, 2, false, None, b"ctx")?;
         let bytes = a.proof.to_bytes();
         // change the number of rounds, the extension tag, truncate / extend
-        for tag_b in 1u8..=6 { for add in [-4i32, -2, 0, 2, 4, 20] {
+        for tag_b in 1u8..=6 { for add in [-4i32, -2, 0, 2, 4, 20, 120, 122, 124, 126, 128, 130, 2000] {
             let mut b = bytes.clone(); b[0] = tag_b;
-            if add < 0 { b.truncate(b.len() - 32 * (-add) as usize); } else { for _ in 0..add { b.extend_from_slice(&bytes[1..33]); } }
+            let dd = bytes[0] as usize; let pt = bytes[1 + 32 * dd..33 + 32 * dd].to_vec(); /* the encoding of A: a valid non-identity point */
+            if add < 0 { b.truncate(b.len() - 32 * (-add) as usize); } else { for _ in 0..add { b.extend_from_slice(&pt); } }
             if let Ok(p) = RistrettoRangeProof::from_bytes(&b) { probe(vec![a.statement.clone()], vec![p], format!("tag {} rounds {:+}", tag_b, add / 2))?; }
         } }
         // mixed capacities / aggregation in one batch, proof of another statement
@@ -499,14 +500,131 @@ fn fam_gens(tag: &str, out: &mut Vec<Case>) {
     })));
 }
 
+fn fam_modes(tag: &str, out: &mut Vec<Case>) {
+    // C10: the verdict is the same with or without a seed and in every verifying mode; a wrong seed gives a wrong mask, never an error
+    for d in [1usize, 3] {
+        let id = format!("{}:modes:d={}", tag, d);
+        let idc = id.clone();
+        out.push((id, Box::new(move || {
+            let mut rng = rng_for(&idc);
+            let good = make_member(&mut rng, 8, 1, 1, d, true, None, b"ctx")?;
+            let other = make_member(&mut rng, 8, 1, 1, d, true, None, b"ctx")?;
+            let mut variants: Vec<(String, Member, bool)> = vec![("valid".into(), good.clone(), true)];
+            variants.push(("proof of another statement".into(), Member { proof: other.proof.clone(), ..good.clone() }, false));
+            for s in [0usize, d, d + 3, d + 5] { if let Some(p2) = tamper(&good.proof, s) { if p2 != good.proof { variants.push((format!("element {} replaced", s), Member { proof: p2, ..good.clone() }, false)); } } }
+            for (what, mem, valid) in variants {
+                for seeded in [true, false] {
+                    let st = RangeStatement::init(mem.statement.generators.clone(), mem.statement.commitments.clone(), mem.statement.minimum_value_promises.clone(),
+                        if seeded { mem.statement.seed_nonce } else { None }).map_err(|e| format!("{:?}", e))?;
+                    let m2 = Member { statement: st, seeded, ..mem.clone() };
+                    for action in [VerifyAction::VerifyOnly, VerifyAction::RecoverAndVerify] {
+                        let r = verify(&[m2.clone()], action, b"ctx");
+                        if r.is_ok() != valid { return Err(format!("verdict differs: {} is {} with seed present {}, action {:?}", what, if r.is_ok() { "accepted" } else { "rejected" }, seeded, action)); }
+                    }
+                    // mixed batch: an invalid member next to a valid one
+                    if !valid { if verify(&[good.clone(), m2.clone()], VerifyAction::RecoverAndVerify, b"ctx").is_ok() { return Err(format!("batch with an invalid member ({}) accepted in RecoverAndVerify, seed present {}", what, seeded)); } }
+                }
+            }
+            // wrong seeds: one bit flipped at every byte position
+            let truth = good.blindings.clone();
+            let sd = good.statement.seed_nonce.unwrap().to_bytes();
+            for byte in 0..32usize { for bit in [0u8, 3] {
+                let mut b = sd; b[byte] ^= 1 << bit; if byte == 31 { b[31] &= 0x0f; }
+                let s2 = match Option::<Scalar>::from(Scalar::from_canonical_bytes(b)) { Some(x) => x, None => continue };
+                if s2 == good.statement.seed_nonce.unwrap() { continue; }
+                let st = RangeStatement::init(good.statement.generators.clone(), good.statement.commitments.clone(), good.statement.minimum_value_promises.clone(), Some(s2)).map_err(|e| format!("{:?}", e))?;
+                let m2 = Member { statement: st, ..good.clone() };
+                let r1 = verify(&[m2.clone()], VerifyAction::RecoverOnly, b"ctx").map_err(|e| format!("a wrong seed caused an error: {}", e))?;
+                let r2 = verify(&[m2.clone()], VerifyAction::RecoverAndVerify, b"ctx").map_err(|e| format!("a wrong seed changed the verdict: {}", e))?;
+                if r1 != r2 { return Err("RecoverOnly and RecoverAndVerify return different masks".into()); }
+                if let Some(Some(mask)) = r1.first() { if mask.blindings().map_err(|e| format!("{:?}", e))? == truth { return Err(format!("a wrong seed recovered the true mask (byte {} tweaked)", byte)); } } else { return Err("no mask under a wrong seed".into()); }
+            } }
+            Ok(())
+        })));
+    }
+}
+
+struct ConstRng(u8);
+impl RngCore for ConstRng {
+    fn next_u32(&mut self) -> u32 { u32::from_le_bytes([self.0; 4]) }
+    fn next_u64(&mut self) -> u64 { u64::from_le_bytes([self.0; 8]) }
+    fn fill_bytes(&mut self, d: &mut [u8]) { for b in d.iter_mut() { *b = self.0; } }
+    fn try_fill_bytes(&mut self, d: &mut [u8]) -> Result<(), rand_core::Error> { self.fill_bytes(d); Ok(()) }
+}
+impl rand_core::CryptoRng for ConstRng {}
+
+fn fam_nonces(tag: &str, out: &mut Vec<Case>) {
+    // C13 / C14: observable consequences through the public API
+    let id = format!("{}:nonces:streams", tag);
+    out.push((id, Box::new(move || {
+        for &(bits, d, seeded) in &[(8usize, 1usize, false), (8, 3, false), (2, 1, true), (16, 3, true), (64, 2, true)] {
+            let mk = |seed: u64| -> Result<Member, String> {
+                let mut setup = ChaCha12Rng::seed_from_u64(99);     // same statement and witness in both runs
+                let pc = create_pedersen_gens_with_extension_degree(deg(d));
+                let params = RangeParameters::init(bits, 1, pc).map_err(|e| format!("{:?}", e))?;
+                let r: Vec<Scalar> = (0..d).map(|_| Scalar::random(&mut setup)).collect();
+                let c = params.pc_gens().commit(&Scalar::from(1u64), &r).map_err(|e| format!("{:?}", e))?;
+                let sn = if seeded { Some(Scalar::random(&mut setup)) } else { None };
+                let st = RangeStatement::init(params, vec![c], vec![None], sn).map_err(|e| format!("{:?}", e))?;
+                let w = RangeWitness::init(vec![CommitmentOpening::new(1, r.clone())]).map_err(|e| format!("{:?}", e))?;
+                let mut prng = ChaCha12Rng::seed_from_u64(seed);
+                let proof = RangeProof::prove_with_rng(&mut Transcript::new(b"ctx"), &st, &w, &mut prng).map_err(|e| format!("{:?}", e))?;
+                Ok(Member { statement: st, proof, blindings: r, seeded })
+            };
+            let (p1, p2, p1b) = (mk(1)?, mk(2)?, mk(1)?);
+            if p1.proof != p1b.proof { return Err("the same arguments and RNG stream gave different proofs".into()); }
+            let (b1, b2) = (p1.proof.to_bytes(), p2.proof.to_bytes());
+            let slot = |b: &Vec<u8>, k: usize| b[1 + 32 * k..1 + 32 * k + 32].to_vec();
+            // layout: d1[0..d], A, A1, B, r1, s1, L/R...
+            let names = [(d, "A"), (d + 1, "A1"), (d + 2, "B"), (d + 3, "r1"), (d + 4, "s1")];
+            for (k, nm) in names {
+                let same = slot(&b1, k) == slot(&b2, k);
+                let must_differ = !seeded || nm != "A";
+                if must_differ && same { return Err(format!("{} is identical in two proofs made with different RNG streams (bits {}, degree {}, seed {})", nm, bits, d, seeded)); }
+            }
+            if !seeded { for k in 0..d { if slot(&b1, k) == slot(&b2, k) { return Err(format!("d1[{}] identical in two unseeded proofs with different RNG streams", k)); } } }
+        }
+        Ok(())
+    })));
+    // C14: a constant external RNG must not make nonces independent of the witness: two openings of the SAME commitment
+    // (degenerate generators G1 == G2) give proofs that differ in every prover message
+    let id = format!("{}:nonces:hedged", tag);
+    out.push((id, Box::new(move || {
+        let mut setup = ChaCha12Rng::seed_from_u64(5);
+        let mut pc = create_pedersen_gens_with_extension_degree(deg(3));
+        pc.g_base_vec[2] = pc.g_base_vec[1]; pc.g_base_compressed_vec[2] = pc.g_base_compressed_vec[1];
+        let params = RangeParameters::init(8, 1, pc).map_err(|e| format!("{:?}", e))?;
+        let r: Vec<Scalar> = (0..3).map(|_| Scalar::random(&mut setup)).collect();
+        let t = Scalar::from(11u64);
+        let r2 = vec![r[0], r[1] + t, r[2] - t];
+        let c = params.pc_gens().commit(&Scalar::from(7u64), &r).map_err(|e| format!("{:?}", e))?;
+        if c != params.pc_gens().commit(&Scalar::from(7u64), &r2).map_err(|e| format!("{:?}", e))? { return Err("setup: openings do not share a commitment".into()); }
+        let st = RangeStatement::init(params, vec![c], vec![None], None).map_err(|e| format!("{:?}", e))?;
+        for fill in [0u8, 0x55, 0xff] {
+            let run = |rv: &Vec<Scalar>| -> Result<Vec<u8>, String> {
+                let w = RangeWitness::init(vec![CommitmentOpening::new(7, rv.clone())]).map_err(|e| format!("{:?}", e))?;
+                let mut bad = ConstRng(fill);
+                Ok(RangeProof::prove_with_rng(&mut Transcript::new(b"ctx"), &st, &w, &mut bad).map_err(|e| format!("{:?}", e))?.to_bytes())
+            };
+            let (b1, b2) = (run(&r)?, run(&r2)?);
+            if run(&r)? != b1 { return Err("identical runs are not reproducible under a constant RNG".into()); }
+            for (k, nm) in [(3usize, "A"), (4, "A1"), (5, "B"), (6, "r1"), (7, "s1"), (8, "L0"), (9, "R0")] {
+                if b1[1 + 32 * k..33 + 32 * k] == b2[1 + 32 * k..33 + 32 * k] { return Err(format!("with a constant external RNG ({:#x}) two different openings of one commitment share {}", fill, nm)); }
+            }
+        }
+        Ok(())
+    })));
+}
+
 fn families(prop: &str) -> Vec<Case> {
     let mut v: Vec<Case> = vec![];
     match prop {
         "C01" | "C12" => { fam_completeness(prop, &mut v); if prop == "C12" { fam_gens(prop, &mut v); } }
-        "C02" | "C04" | "C05" => { fam_binding(prop, &mut v); fam_batch(prop, &mut v); fam_completeness(prop, &mut v); }
+        "C02" | "C04" | "C05" => { fam_binding(prop, &mut v); fam_batch(prop, &mut v); if prop == "C05" { fam_panics(prop, &mut v); } if prop == "C02" { fam_modes(prop, &mut v); } fam_completeness(prop, &mut v); }
         "C03" | "C08" => { fam_batch(prop, &mut v); }
         "C06" | "C07" => { fam_prover(prop, &mut v); if prop == "C07" { fam_binding(prop, &mut v); } }
-        "C09" | "C10" => { fam_completeness(prop, &mut v); fam_batch(prop, &mut v); }
+        "C09" | "C10" => { fam_modes(prop, &mut v); fam_completeness(prop, &mut v); fam_batch(prop, &mut v); }
+        "C13" | "C14" => { fam_nonces(prop, &mut v); }
         "C11" => { fam_gens(prop, &mut v); }
         "C15" => { fam_codec(prop, &mut v); }
         "C16" => { fam_panics(prop, &mut v); fam_codec(prop, &mut v); fam_batch(prop, &mut v); }
